@@ -1,6 +1,7 @@
 #!/bin/sh
 # usage: tools/try_seeded.sh <Cxx> <worktree> <outdir> [check-to-run ...]
 # confirms a sub-agent's change (demo OK on clean tree, FAIL with patch, pinned suite unchanged) and runs the check(s) on it
+root=$(cd "$(dirname "$0")/.." && pwd)
 prop=$1; wt=$2; out=$3; shift 3
 checks=${*:-$prop}
 cd $wt && git checkout -q -- src && git checkout -q --detach main
@@ -8,7 +9,7 @@ echo "--- demo on clean tree"; PYTHONPATH=$wt/src /venv/bin/python $out/demo.py 
 git apply $out/patch.diff || { echo "PATCH DOES NOT APPLY"; exit 3; }
 echo "--- demo with patch"; PYTHONPATH=$wt/src /venv/bin/python $out/demo.py > /tmp/demo_out.txt 2>&1; echo "rc=$?"; grep -v WARNING /tmp/demo_out.txt | tail -3
 echo "--- pinned suite with patch"; PYTHONPATH=$wt/src /venv/bin/python -m pytest -q -p no:cacheprovider --timeout=900 --continue-on-collection-errors 2>&1 | tail -1
-cd /verif
+cd "$root"
 for c in $checks; do
   echo "--- check $c on the patched tree"
   PDT_VERIF_REPO_SRC=$wt/src ./check $c --tier quick 2>&1 | grep -v WARNING | grep -v '^KNOWN' | grep -E "VIOLATION|oracle=|runs=|configurations=|HARNESS" | head -6 | cut -c1-330
